@@ -4,29 +4,42 @@ From TS Require Import Model.Str Model.Outcome Model.Unicode Model.Syntax Model.
 From TS Require Import Model.TopsortAlgo Model.Topsort Model.Lang.Common.
 From TS Require Import Model.Lang.TypeScript Model.Lang.Kotlin Model.Lang.Swift Model.Lang.Scala Model.Lang.Go Model.Lang.Python.
 From TS Require Import Spec.Lexers Spec.C15Spec Spec.C15Render.
-From TS Require Proofs.C15 Proofs.C15_Render Proofs.C15_Kotlin Proofs.C15_Go Proofs.C15_Swift Proofs.C15_Python Proofs.C15_TypeScript.
+From TS Require Proofs.C15_Front Proofs.C15_Replace Proofs.C15 Proofs.C15_Render Proofs.C15_Kotlin Proofs.C15_Go Proofs.C15_Swift Proofs.C15_Python Proofs.C15_TypeScript.
 Import ListNotations.
 From TS Require Props.C15.
 
 Goal forall uc attrs,
   parse_comment_attrs uc attrs =
-  flat_map (fun a => match a_meta a with
-                     | MNV p (VStr s) => if path_is_ident p (lit "doc") then [trim uc s] else []
-                     | _ => []
-                     end) attrs.
-Proof. exact Props.C15.C15_front_raw_doc_strings. Qed.
-Print Assumptions Props.C15.C15_front_raw_doc_strings.
-Goal forall uc attrs,
-  parse_comment_attrs uc attrs =
-  map (c15_carried uc)
+  flat_map (c15_carried uc)
       (flat_map (fun a => match a_meta a with
                           | MNV p (VStr s) => if path_is_ident p (lit "doc") then [s] else []
                           | _ => []
                           end) attrs).
 Proof. exact Props.C15.C15_front_carried. Qed.
 Print Assumptions Props.C15.C15_front_carried.
+Goal forall uc v d, In d (c15_carried uc v) -> safe_line eol_lf_cr d = true.
+Proof. exact Props.C15.C15_carried_no_break. Qed.
+Print Assumptions Props.C15.C15_carried_no_break.
+Goal forall uc attrs d, In d (parse_comment_attrs uc attrs) -> safe_line eol_lf_cr d = true.
+Proof. exact Props.C15.C15_front_no_break. Qed.
+Print Assumptions Props.C15.C15_front_no_break.
+Goal forall uc l docstring vs, forallb (c15_safe l docstring) (flat_map (c15_carried uc) vs) = true.
+Proof. exact Props.C15.C15_carried_safe. Qed.
+Print Assumptions Props.C15.C15_carried_safe.
+Goal forall d, ts_escape_comment d = c15_esc_ts d.
+Proof. exact Props.C15.C15_ts_escape_model. Qed.
+Print Assumptions Props.C15.C15_ts_escape_model.
+Goal forall d, py_escape_docstring d = c15_esc_py d.
+Proof. exact Props.C15.C15_py_escape_model. Qed.
+Print Assumptions Props.C15.C15_py_escape_model.
+Goal forall d, safe_ts (c15_esc_ts d) = true.
+Proof. exact Props.C15.C15_ts_escape_safe. Qed.
+Print Assumptions Props.C15.C15_ts_escape_safe.
+Goal forall d, safe_py_docstring (c15_esc_py d) = true.
+Proof. exact Props.C15.C15_py_escape_safe. Qed.
+Print Assumptions Props.C15.C15_py_escape_safe.
 Goal forall indent docs,
-  text_of (ts_tmpl indent docs) = ts_comments indent docs /\ docs_of (ts_tmpl indent docs) = docs.
+  text_of (ts_tmpl indent docs) = ts_comments indent docs /\ docs_of (ts_tmpl indent docs) = map c15_esc_ts docs.
 Proof. exact Props.C15.C15_fragment_ts. Qed.
 Print Assumptions Props.C15.C15_fragment_ts.
 Goal forall indent docs,
@@ -47,37 +60,46 @@ Proof. exact Props.C15.C15_fragment_go. Qed.
 Print Assumptions Props.C15.C15_fragment_go.
 Goal forall docstring indent docs,
   text_of (py_tmpl docstring indent docs) = py_write_comments docstring docs indent /\
-  docs_of (py_tmpl docstring indent docs) = docs.
+  docs_of (py_tmpl docstring indent docs) = map (c15_written C15py docstring) docs.
 Proof. exact Props.C15.C15_fragment_py. Qed.
 Print Assumptions Props.C15.C15_fragment_py.
-Goal forall indent docs, forallb safe_ts docs = true ->
-  c15_contained C15ts LCode (mark (ts_tmpl indent docs)) = true.
+Goal forall indent docs, c15_contained C15ts LCode (mark (ts_tmpl indent docs)) = true.
 Proof. exact Props.C15.C15_contained_ts. Qed.
 Print Assumptions Props.C15.C15_contained_ts.
-Goal forall indent docs, forallb safe_kt docs = true ->
-  c15_contained C15kt LCode (mark (kt_tmpl indent docs)) = true.
+Goal forall uc indent vs,
+  c15_contained C15kt LCode (mark (kt_tmpl indent (flat_map (c15_carried uc) vs))) = true.
 Proof. exact Props.C15.C15_contained_kt. Qed.
 Print Assumptions Props.C15.C15_contained_kt.
-Goal forall indent docs, forallb safe_sw docs = true ->
-  c15_contained C15sw LCode (mark (sw_tmpl indent docs)) = true.
+Goal forall uc indent vs,
+  c15_contained C15sw LCode (mark (sw_tmpl indent (flat_map (c15_carried uc) vs))) = true.
 Proof. exact Props.C15.C15_contained_sw. Qed.
 Print Assumptions Props.C15.C15_contained_sw.
-Goal forall indent docs, forallb safe_sc docs = true ->
-  c15_contained C15sc LCode (mark (sc_tmpl indent docs)) = true.
+Goal forall uc indent vs,
+  c15_contained C15sc LCode (mark (sc_tmpl indent (flat_map (c15_carried uc) vs))) = true.
 Proof. exact Props.C15.C15_contained_sc. Qed.
 Print Assumptions Props.C15.C15_contained_sc.
-Goal forall indent docs, forallb safe_go docs = true ->
-  c15_contained C15go LCode (mark (go_tmpl indent docs)) = true.
+Goal forall uc indent vs,
+  c15_contained C15go LCode (mark (go_tmpl indent (flat_map (c15_carried uc) vs))) = true.
 Proof. exact Props.C15.C15_contained_go. Qed.
 Print Assumptions Props.C15.C15_contained_go.
-Goal forall docstring indent docs, forallb (safe_py docstring) docs = true ->
-  c15_contained C15py LCode (mark (py_tmpl docstring indent docs)) = true.
+Goal forall uc docstring indent vs,
+  c15_contained C15py LCode (mark (py_tmpl docstring indent (flat_map (c15_carried uc) vs))) = true.
 Proof. exact Props.C15.C15_contained_py. Qed.
 Print Assumptions Props.C15.C15_contained_py.
-Goal forall l docstring indent docs, forallb (c15_safe l docstring) docs = false ->
-  c15_contained l LCode (mark (c15_tmpl l docstring indent docs)) = false.
-Proof. exact Props.C15.C15_necessary. Qed.
-Print Assumptions Props.C15.C15_necessary.
+Goal forall indent docs, c15_contained C15py LCode (mark (py_tmpl true indent docs)) = true.
+Proof. exact Props.C15.C15_contained_py_docstring. Qed.
+Print Assumptions Props.C15.C15_contained_py_docstring.
+Goal forall l docstring indent docs,
+  c15_contained l LCode (mark (c15_tmpl l docstring indent docs)) = forallb (c15_safe l docstring) docs.
+Proof. exact Props.C15.C15_exact. Qed.
+Print Assumptions Props.C15.C15_exact.
+Goal forall l docstring indent ws,
+  c15_contained l LCode (mark (c15_tmpl_w l docstring indent ws)) = forallb (c15_safe_w l docstring) ws.
+Proof. exact Props.C15.C15_exact_written. Qed.
+Print Assumptions Props.C15.C15_exact_written.
+Goal forall l sites, known_C15 l sites = None.
+Proof. exact Props.C15.C15_no_finding_class. Qed.
+Print Assumptions Props.C15.C15_no_finding_class.
 Goal forall eol d,
   safe_line eol d = true <-> (forall c, In c d -> eol c = false).
 Proof. exact Props.C15.C15_safe_line_meaning. Qed.
@@ -94,9 +116,9 @@ Goal forall (uc : unicode) (cfg : ts_config) it st text st',
   ts_write_item uc cfg it st = Ok (text, st') ->
   exists parts,
     text = text_of (c15_file_pieces C15ts parts) /\
-    docs_of (c15_file_pieces C15ts parts) = c15_item_docs it /\
+    docs_of (c15_file_pieces C15ts parts) = map c15_esc_ts (c15_item_docs it) /\
     (Forall (c15_code_neutral C15ts) parts ->
-     c15_contained C15ts LCode (mark (c15_file_pieces C15ts parts)) = forallb safe_ts (c15_item_docs it)).
+     c15_contained C15ts LCode (mark (c15_file_pieces C15ts parts)) = true).
 Proof. exact Props.C15.C15_ts_item_partial. Qed.
 Print Assumptions Props.C15.C15_ts_item_partial.
 Goal forall d : sc_decl,
@@ -107,24 +129,24 @@ Goal forall d : sc_decl,
      c15_contained C15sc LCode (mark (c15_file_pieces C15sc parts)) = forallb safe_sc (Proofs.C15.sc_decl_docs d)).
 Proof. exact Props.C15.C15_sc_render_partial. Qed.
 Print Assumptions Props.C15.C15_sc_render_partial.
-Goal Proofs.C15.c15_refutes C15kt (lit "alpha" ++ [ch_nl] ++ lit "beta").
-Proof. exact Props.C15.C15_kt_refuted. Qed.
-Print Assumptions Props.C15.C15_kt_refuted.
-Goal Proofs.C15.c15_refutes C15sw (lit "alpha" ++ [ch_nl] ++ lit "beta").
-Proof. exact Props.C15.C15_sw_refuted. Qed.
-Print Assumptions Props.C15.C15_sw_refuted.
-Goal Proofs.C15.c15_refutes C15sc (lit "alpha" ++ [ch_nl] ++ lit "beta").
-Proof. exact Props.C15.C15_sc_refuted. Qed.
-Print Assumptions Props.C15.C15_sc_refuted.
-Goal Proofs.C15.c15_refutes C15go (lit "alpha" ++ [ch_nl] ++ lit "beta").
-Proof. exact Props.C15.C15_go_refuted. Qed.
-Print Assumptions Props.C15.C15_go_refuted.
-Goal Proofs.C15.c15_refutes C15ts (lit "alpha */ beta").
-Proof. exact Props.C15.C15_ts_refuted. Qed.
-Print Assumptions Props.C15.C15_ts_refuted.
-Goal Proofs.C15.c15_refutes C15py (lit "alpha """""" beta").
-Proof. exact Props.C15.C15_py_refuted. Qed.
-Print Assumptions Props.C15.C15_py_refuted.
+Goal Proofs.C15.c15_pinned C15kt (lit " alpha" ++ [ch_nl] ++ lit "beta ") [lit "alpha"; lit "beta"].
+Proof. exact Props.C15.C15_kt_fixed. Qed.
+Print Assumptions Props.C15.C15_kt_fixed.
+Goal Proofs.C15.c15_pinned C15sw (lit " alpha" ++ [ch_nl] ++ lit "beta ") [lit "alpha"; lit "beta"].
+Proof. exact Props.C15.C15_sw_fixed. Qed.
+Print Assumptions Props.C15.C15_sw_fixed.
+Goal Proofs.C15.c15_pinned C15sc (lit " alpha" ++ [ch_nl] ++ lit "beta ") [lit "alpha"; lit "beta"].
+Proof. exact Props.C15.C15_sc_fixed. Qed.
+Print Assumptions Props.C15.C15_sc_fixed.
+Goal Proofs.C15.c15_pinned C15go (lit " alpha" ++ [ch_nl] ++ lit "beta ") [lit "alpha"; lit "beta"].
+Proof. exact Props.C15.C15_go_fixed. Qed.
+Print Assumptions Props.C15.C15_go_fixed.
+Goal Proofs.C15.c15_pinned C15ts (lit "alpha */ beta") [lit "alpha */ beta"].
+Proof. exact Props.C15.C15_ts_fixed. Qed.
+Print Assumptions Props.C15.C15_ts_fixed.
+Goal Proofs.C15.c15_pinned C15py (lit " alpha """""" beta") [lit "alpha """""" beta"].
+Proof. exact Props.C15.C15_py_fixed. Qed.
+Print Assumptions Props.C15.C15_py_fixed.
 Goal forall it,
   Permutation (c15_item_docs_helpers_first it) (c15_item_generated it ++ c15_item_docs it).
 Proof. exact Props.C15.C15_helpers_first_perm. Qed.
@@ -163,7 +185,7 @@ Goal forall (uc : unicode) (cfg : py_config) it st text st',
   py_write_item uc cfg it st = Ok (text, st') ->
   exists parts,
     text = text_of (c15_file_pieces C15py parts) /\
-    docs_of (c15_file_pieces C15py parts) = map snd (c15_py_item_sites it) /\
+    docs_of (c15_file_pieces C15py parts) = map (c15_site_text C15py) (c15_py_item_sites it) /\
     (Forall (c15_code_neutral C15py) parts ->
      c15_contained C15py LCode (mark (c15_file_pieces C15py parts)) =
      forallb (c15_site_ok C15py) (c15_py_item_sites it)).
@@ -180,8 +202,8 @@ Goal forall (uc : unicode) (cfg : ts_config),
   ts_write_item uc cfg it st = Ok (text, st') ->
   exists parts,
     text = text_of (c15_file_pieces C15ts parts) /\
-    docs_of (c15_file_pieces C15ts parts) = c15_item_docs it /\
-    c15_contained C15ts LCode (mark (c15_file_pieces C15ts parts)) = forallb safe_ts (c15_item_docs it).
+    docs_of (c15_file_pieces C15ts parts) = map c15_esc_ts (c15_item_docs it) /\
+    c15_contained C15ts LCode (mark (c15_file_pieces C15ts parts)) = true.
 Proof. exact Props.C15.C15_ts_item. Qed.
 Print Assumptions Props.C15.C15_ts_item.
 Goal forall (cfg : kt_config),
@@ -208,8 +230,35 @@ Goal forall (uc : unicode) (cfg : ts_config),
     topsort (items_of pd) = Ok items /\ Permutation items (items_of pd) /\
     (trailer = [] \/ trailer = c15_ts_trailer_docs) /\
     text = text_of (c15_file_pieces C15ts parts) /\
-    docs_of (c15_file_pieces C15ts parts) = flat_map c15_item_docs items ++ trailer /\
-    c15_contained C15ts LCode (mark (c15_file_pieces C15ts parts)) =
-    forallb safe_ts (flat_map c15_item_docs (items_of pd)).
+    docs_of (c15_file_pieces C15ts parts) = map c15_esc_ts (flat_map c15_item_docs items ++ trailer) /\
+    c15_contained C15ts LCode (mark (c15_file_pieces C15ts parts)) = true.
 Proof. exact Props.C15.C15_ts_file. Qed.
 Print Assumptions Props.C15.C15_ts_file.
+Goal forall uc tstr T attrs ident gens fs it,
+  parse_struct uc tstr T attrs ident gens fs = Ok it ->
+  Forall (fun d => safe_line eol_lf_cr d = true) (c15_item_docs it).
+Proof. exact Props.C15.C15_parsed_struct_line_free. Qed.
+Print Assumptions Props.C15.C15_parsed_struct_line_free.
+Goal forall uc tstr T attrs ident gens vs it,
+  parse_enum uc tstr T attrs ident gens vs = Ok it ->
+  Forall (fun d => safe_line eol_lf_cr d = true) (c15_item_docs it).
+Proof. exact Props.C15.C15_parsed_enum_line_free. Qed.
+Print Assumptions Props.C15.C15_parsed_enum_line_free.
+Goal forall uc tstr attrs ident gens t it,
+  parse_type_alias uc tstr attrs ident gens t = Ok it ->
+  Forall (fun d => safe_line eol_lf_cr d = true) (c15_item_docs it).
+Proof. exact Props.C15.C15_parsed_alias_line_free. Qed.
+Print Assumptions Props.C15.C15_parsed_alias_line_free.
+Goal forall (cfg : kt_config),
+  c15_plain C15kt (kt_prefix cfg) = true ->
+  c15_mappings_plain C15kt (kt_type_mappings cfg) = true ->
+  forall it text,
+  c15_item_strict C15kt Kotlin it = true ->
+  Forall (fun d => safe_line eol_lf_cr d = true) (c15_item_docs it) ->
+  kt_write_item cfg it = Ok text ->
+  exists parts,
+    text = text_of (c15_file_pieces C15kt parts) /\
+    docs_of (c15_file_pieces C15kt parts) = c15_item_docs_helpers_first it /\
+    c15_contained C15kt LCode (mark (c15_file_pieces C15kt parts)) = true.
+Proof. exact Props.C15.C15_kt_item_line_free. Qed.
+Print Assumptions Props.C15.C15_kt_item_line_free.
